@@ -12,7 +12,7 @@ RULE = ("cases: generated grammar (ambiguous and unambiguous, text / bytes / bit
         "distinct by (grammar, history).")
 TIMEOUTS = {"quick": (90, 420), "thorough": (300, 2400)}
 MIN = {"quick": {"cases": 100, "nontrivial": 800, "observed": {"requests_compared": 8000, "repeat_requests": 3000, "ambiguous_results": 300}},
-       "thorough": {"cases": 1000, "nontrivial": 10000, "observed": {"requests_compared": 100000}}}
+       "thorough": {"cases": 700, "nontrivial": 6000, "observed": {"requests_compared": 60000}}}
 ASSUMPTIONS = ["a fresh spec object built from the same text is the reference; iteration numbers inside repetition tags are compared up to renaming"]
 
 PROFILES = [
